@@ -213,8 +213,10 @@ pub fn check_curve_line(c: &Curve<Coord2>, l: &L, stats: &mut Stats, desc: &str)
     for k in 1..n {
         let t = (k as f64 + 0.5) / n as f64;
         let cur = sdist(l, c.point_at_pos(t));
-        // a clear sign change (both sides away from the noise floor)
-        if prev * cur < 0.0 && prev.abs() > 1e-7 && cur.abs() > 1e-7 {
+        // a clear sign change: both sides farther from the line than 1e-6, the tolerance at which the statement itself judges "on the line"
+        // (a touch whose excursion to the other side stays below that is not resolvable at the statement's own resolution; a floor of 1e-7
+        // flagged one such near-tangent touch in 1.6 million cases of the extended tier)
+        if prev * cur < 0.0 && prev.abs() > 1e-6 && cur.abs() > 1e-6 {
             let t0 = (k as f64 - 0.5) / n as f64;
             if !hits.iter().any(|(ht, _, _)| *ht >= t0 - 1e-3 && *ht <= t + 1e-3) {
                 stats.fail("C04", "sign_change_not_reported", &format!("{} sign change in t=[{}, {}] hits={:?}", desc, t0, t, hits.iter().map(|h| h.0).collect::<Vec<_>>()));
